@@ -1243,6 +1243,7 @@ class RTCSctpTransport(AsyncIOEventEmitter):
             self._last_sacked_tsn, self._sent_queue[0].tsn
         ):
             schunk = self._sent_queue.popleft()
+            schunk._retransmit = False
             done += 1
             if not schunk._acked:
                 done_bytes += schunk._book_size
@@ -1676,7 +1677,9 @@ class RTCSctpTransport(AsyncIOEventEmitter):
 
         # retransmit
         retransmit_earliest = True
-        for chunk in self._sent_queue:
+        # sending may suspend (e.g. a TURN channel refresh) and the queue may
+        # change in the meantime, so walk a snapshot of it
+        for chunk in list(self._sent_queue):
             if chunk._retransmit:
                 if self._fast_recovery_transmit:
                     self._fast_recovery_transmit = False
